@@ -100,6 +100,9 @@ gen_config(sim::Plan& p, sim::Rng& r, bool thorough)
   p.cfg["p_exp"] = r.range(13, 50); // p = 10^(-p_exp/10): 5e-2 .. 1e-5
   p.cfg["rr_k"] = r.range(1, 500);
   p.cfg["sched_seed"] = (long)r.below(1L << 40);
+  // scatter scenario (drawn last so that earlier draws keep their values)
+  p.cfg["random"] = r.chance(0.4);
+  p.cfg["sp"] = r.range(-1, 5);
 }
 
 inline sc::Params
@@ -516,7 +519,7 @@ run_scenario(const sim::Plan& p, const std::string& scen, sim::Result& res)
   else if (scen == "scatter")
     {
       fn = scen_scatter;
-      exact = false;
+      exact = true; // every output bin is written by one iteration; cached floats equal recomputed ones
     }
   else
     return;
